@@ -345,6 +345,17 @@ class Walker:
             if hasattr(t, "_def_id"):
                 t2._def_id = t._def_id
             t, pol = t2, False
+        # a condition already decided on this path (same pure expression, nothing it reads was written since) is not decided again:
+        # `if d: ...` followed by `if not d: ...` has two feasible paths, not four
+        if kind == "if" and not any(isinstance(n, ast.Call) for n in ast.walk(t)):
+            key = dump(t)
+            for idx, (g0, pol0, k0) in enumerate(p.guards):
+                if k0 in ("if", "assert") and dump(g0) == key:
+                    reads_attr = any(isinstance(n, ast.Attribute) for n in ast.walk(t))
+                    written_since = reads_attr and any(e.kind in ("attr", "aug", "store", "call") and len(e.guards) > idx for e in p.events)
+                    if not written_since:
+                        holds = (pol0 == pol)
+                        return ([p], []) if holds else ([], [p])
         a = p.fork()
         a.guards.append((t, pol, kind))
         p.guards.append((t, not pol, kind))
